@@ -57,3 +57,35 @@ func VerifH_C14_x2() {
 }
 
 var _ = common.Big0
+
+// H-C14-w: the RLP wire form of a Qi transaction carries the whole transaction: for 0..2 inputs and
+// 0..3 outputs (counts independent) with arbitrary contents, copyToWire preserves chain id, every
+// input, every output and the data, and copyFromWire(copyToWire(tx)) gives them back. (The RLP
+// byte encoding of the wire struct itself is reflection-based and outside the engine.)
+func VerifH_C14_w() {
+	nIn, nOut := vLen("inputs", 2), vLen("outputs", 3)
+	tx := &QiTx{ChainID: vByteBig("chainId"), Data: vBytes("data", vLen("dataLen", 2))}
+	for i := 0; i < nIn; i++ {
+		tx.TxIn = append(tx.TxIn, TxIn{PreviousOutPoint: OutPoint{TxHash: vHash32("prev"), Index: vU16("prevIndex")}, PubKey: vBytes("pub", 2)})
+	}
+	for i := 0; i < nOut; i++ {
+		tx.TxOut = append(tx.TxOut, TxOut{Denomination: vU8("den"), Address: vBytes("addr", 20), Lock: vByteBig("lock")})
+	}
+	w := tx.copyToWire()
+	vReach("copied")
+	vAssert("wire/input-count", len(w.TxIn) == nIn)
+	vAssert("wire/output-count", len(w.TxOut) == nOut)
+	vAssert("wire/chain-id-and-data", w.ChainID.Cmp(tx.ChainID) == 0 && string(w.Data) == string(tx.Data))
+	for i := 0; i < nIn && i < len(w.TxIn); i++ {
+		vAssert("wire/input-preserved", w.TxIn[i].PreviousOutPoint == tx.TxIn[i].PreviousOutPoint && string(w.TxIn[i].PubKey) == string(tx.TxIn[i].PubKey))
+	}
+	for i := 0; i < nOut && i < len(w.TxOut); i++ {
+		vAssert("wire/output-preserved", w.TxOut[i].Denomination == tx.TxOut[i].Denomination && string(w.TxOut[i].Address) == string(tx.TxOut[i].Address) && w.TxOut[i].Lock.Cmp(tx.TxOut[i].Lock) == 0)
+	}
+	w.Signature = nil
+	back := w.copyFromWire()
+	vAssert("wire/roundtrip-counts", len(back.TxIn) == nIn && len(back.TxOut) == nOut && string(back.Data) == string(tx.Data) && back.ChainID.Cmp(tx.ChainID) == 0)
+	for i := 0; i < nOut && i < len(back.TxOut); i++ {
+		vAssert("wire/roundtrip-output", back.TxOut[i].Denomination == tx.TxOut[i].Denomination && string(back.TxOut[i].Address) == string(tx.TxOut[i].Address))
+	}
+}
